@@ -274,4 +274,41 @@ def DItem.sterms : DItem → List STerm
 def accOf (d : DescrAST) : DescrAcc :=
   { sterms := d.flatMap DItem.sterms, srules := d.flatMap DItem.rules }
 
+/-! ## a name declared both with and without a code
+
+`consistentOccs` / `termTable` above describe the descriptions in which every occurrence of a
+name carries the same code.  The manual's reading of a declaration without code is weaker: it
+says nothing about the code.  The general meaning: the code of a terminal is the explicit code
+of any of its occurrences (they must agree), wherever it stands; a terminal none of whose
+occurrences has a code gets an implicit one. -/
+
+/-- the explicit code of the name `n`: the code of the first occurrence of `n` that has one -/
+def explicitCode (occs : List (String × Option Nat)) (n : String) : Option Nat :=
+  occs.findSome? fun q => if q.1 == n then q.2 else Option.none
+
+/-- one entry per name, at its first occurrence, with the explicit code of the name -/
+def resolvedOccs (occs : List (String × Option Nat)) : List (String × Option Nat) :=
+  (firstOccs occs []).map fun p => (p.1, explicitCode occs p.1)
+
+/-- the terminal table of a list of occurrences in which a name may occur with and without code -/
+def termTableMixed (occs : List (String × Option Nat)) : List (String × Int) :=
+  assignFree ((resolvedOccs occs).filterMap (·.2)) (resolvedOccs occs) 256
+
+def denoteDescrMixed (d : DescrAST) (strict : Bool) : RawGrammar :=
+  { terms := termTableMixed (d.flatMap DItem.occs), rules := d.flatMap DItem.rules,
+    strict := strict }
+
+/-- no name has two different explicit codes -/
+def explicitConsistentOccs (occs : List (String × Option Nat)) : Bool :=
+  occs.all fun p => occs.all fun q => p.1 != q.1 || p.2.isNone || q.2.isNone || p.2 == q.2
+
+def wfASTMixed (d : DescrAST) : Bool :=
+  !d.isEmpty && d.all wfItem && explicitConsistentOccs (d.flatMap DItem.occs)
+
+/-- a description that follows the documented syntax; a terminal may be declared with and
+without its code -/
+def WfASTMixed (d : DescrAST) : Prop := wfASTMixed d = true
+
+instance (d : DescrAST) : Decidable (WfASTMixed d) := by unfold WfASTMixed; infer_instance
+
 end Yaep
